@@ -92,6 +92,7 @@ class Impl:
         self.nr, self.files, self.spaces = nifti_ref, files, spaces
         self.calls = []
         orig = nib.io_orientation
+        self.state0 = self.hidden_state()
 
         def recorded(aff, *a, **k):
             r = orig(aff, *a, **k)
@@ -124,6 +125,19 @@ class Impl:
                         {"module": m.__name__}, found_input=False)
             m.io_orientation = recorded
 
+    def hidden_state(self):
+        """module-level tables the conversions consult: a conversion must not change them"""
+        st = {"spaces.known_names": dict(self.spaces.known_names),
+              "spaces.known_spaces": [s.name for s in self.spaces.known_spaces]}
+        for nm in ("XFORM2SPACE", "TIME_LIKE_AXES", "TIME_LIKE_MAP", "TIME_LIKE_ORDERED", "TIME_LIKE_UNITS"):
+            v = getattr(self.nr, nm, None)
+            st["nifti_ref." + nm] = repr(sorted(v.items(), key=repr)) if isinstance(v, dict) else repr(v)
+        return st
+
+    def state_changes(self):
+        now = self.hidden_state()
+        return {k: {"before": str(self.state0[k])[:600], "after": str(now[k])[:600]} for k in now if now[k] != self.state0[k]}
+
     def errcode(self, e):
         if isinstance(e, self.nr.NiftiError):
             m = str(e)
@@ -147,6 +161,13 @@ class Impl:
             h = self.nib.Nifti1Header()
             h["toffset"] = c["meta_toffset"]
             h.set_data_dtype(np.float64)
+            st = c.get("meta_stale")
+            if st:      # a header as left behind by an earlier load: every geometry field may be stale
+                h.set_xyzt_units(xyz=st["xyz_units"], t=st["t_units"])
+                h.set_dim_info(*st["dim_info"])
+                h["pixdim"][1:8] = st["pixdim"]
+                h["sform_code"] = st["sform_code"]
+                h["qform_code"] = st["qform_code"]
             md = {"header": h}
         return self.Image(data, self.AT(self.CS(c["inn"], "voxels"), self.CS(c["outn"], "world"), aff), md)
 
@@ -346,18 +367,47 @@ def canonical(rng, n, space=None, tlc=None, force=None):
         for k in range(3):
             if rng.random() < 0.3:
                 sp_in[k] = "ijk"[k]
+    # a non-spatial coordinate may carry any name, also one that is a spatial name in another mode
+    # ('x', 'y', 'z' are spatial only for strict=False)
+    g["extra_xyz"] = None
+    free = [k for k in range(m) if onames[k] in opool]
+    if free and g["space"] != "plain" and rng.random() < 0.12:
+        k = int(rng.choice(free))
+        nm = str(rng.choice(["x", "y", "z"]))
+        if inames[k] == onames[k] and rng.random() < 0.5:
+            inames[k] = nm
+        onames[k] = nm
+        g["extra_xyz"] = nm
     g["inn"] = sp_in + inames
     g["outn"] = space_names(g["space"]) + onames
     g["trans"] = list(txyz) + off
     return g
 
 
-def permuted(g, p_in, p_out, strict, fix0, meta=None):
+STALE_XYZ = ["unknown", "mm", "micron", "meter"]
+STALE_T = ["unknown", "sec", "msec", "usec", "hz", "ppm", "rads"]
+
+
+def stale_header(rng):
+    """stale geometry fields of a metadata header (as an earlier load of another file leaves them)"""
+    di = [None, None, None]
+    if rng.random() < 0.5:
+        p = [int(v) for v in rng.permutation(3)]
+        di = [p[k] if rng.random() < 0.7 else None for k in range(3)]
+    return {"xyz_units": str(rng.choice(STALE_XYZ)), "t_units": str(rng.choice(STALE_T)), "dim_info": di,
+            "pixdim": [float(v) for v in rng.choice(ZOOMS, size=7)],
+            "sform_code": int(rng.integers(0, 5)), "qform_code": int(rng.integers(0, 5))}
+
+
+def permuted(g, p_in, p_out, strict, fix0, meta=None, stale=None):
     A = g["A"][list(p_out), :][:, list(p_in)]
     c = {"inn": [g["inn"][i] for i in p_in], "outn": [g["outn"][i] for i in p_out],
          "A": A.tolist(), "trans": [g["trans"][i] for i in p_out], "shape": [g["shape"][i] for i in p_in],
          "strict": bool(strict), "fix0": bool(fix0), "meta_header": meta is not None, "meta_toffset": float(meta or 0.0),
          "p_in": [int(i) for i in p_in], "p_out": [int(i) for i in p_out]}
+    if stale is not None:
+        c["meta_header"] = True
+        c["meta_stale"] = stale
     return c
 
 
@@ -366,7 +416,8 @@ def describe(g, c):
             "timelike": g["tl_name"], "zero_tr": g["zero_tr"], "offset": g["offset_kind"], "coupling": g["coupling"],
             "strict": c["strict"], "fix0": c["fix0"], "meta_header": c["meta_header"],
             "input_names": c["inn"], "output_names": c["outn"], "affine_matrix_part": c["A"], "translation": c["trans"],
-            "shape": c["shape"], "meta_toffset": c["meta_toffset"]}
+            "shape": c["shape"], "meta_toffset": c["meta_toffset"], "meta_stale_header_fields": c.get("meta_stale"),
+            "extra_axis_named_like_space": g.get("extra_xyz")}
 
 
 # ------------------------------------------------------------------ property oracle (implementation only)
@@ -390,6 +441,8 @@ def expressible(g, c):
         return "no:unknown-world-affine"
     if g["coupling"] != "none" or g["degenerate"] or not c["fix0"]:
         return "open"
+    if g.get("extra_xyz") and not c["strict"]:
+        return "open"      # non-strict: the extra axis name is itself a spatial name (two 'x' axes): nothing required
     if g["tl"] in ("cross", "split"):
         return "no:timelike-contradictory"
     if g["space"] == "unknown" and c["p_out"][:3] == [0, 1, 2] and sorted(c["p_in"][:3]) == [0, 1, 2] \
@@ -487,7 +540,8 @@ def run_image_cases(ck, impl, cases, label):
     terms, meta = [], []
     for g, c in cases:
         rep = describe(g, c)
-        key = (c["inn"], c["outn"], c["A"], c["trans"], c["shape"], c["strict"], c["fix0"], c["meta_header"], c["meta_toffset"])
+        key = (c["inn"], c["outn"], c["A"], c["trans"], c["shape"], c["strict"], c["fix0"], c["meta_header"], c["meta_toffset"],
+               repr(c.get("meta_stale")))
         cls = expressible(g, c)
         ck.count(key, nontrivial=(g["n"] > 3 or c["p_in"] != sorted(c["p_in"]) or c["p_out"] != sorted(c["p_out"])),
                  bucket="%s:%dD:%s" % (label, g["n"], cls.split(":")[0]))
@@ -522,6 +576,12 @@ def run_image_cases(ck, impl, cases, label):
                 exc2 = e
         calls = impl.uniq_calls()
         # ---- oracles on the implementation
+        ch = impl.state_changes()
+        if ch:
+            ck.fail("hidden-state/%s-changed-by-conversion/strict=%s" % ("+".join(sorted(ch)), c["strict"]),
+                    "nipy2nifti/nifti2nipy changed module-level tables: later conversions in the same process depend on this call",
+                    dict(rep, changed=ch))
+            impl.state0 = impl.hidden_state()     # report each change once, at the call that made it
         if ni is None:
             if code == 10:
                 ck.fail("nipy2nifti/timelike-input-zero-scale-unmatched-TypeError",
@@ -627,7 +687,8 @@ def gen_random_cases(ck, rng, N, dims):
         strict = rng.random() < 0.6
         fix0 = rng.random() < 0.8
         meta = float(rng.choice([4.0, -1.5])) if rng.random() < 0.1 else None
-        cases.append((g, permuted(g, p_in, p_out, strict, fix0, meta)))
+        stale = stale_header(rng) if rng.random() < 0.2 else None
+        cases.append((g, permuted(g, p_in, p_out, strict, fix0, meta, stale)))
     return cases
 
 
@@ -716,6 +777,7 @@ def section_nifti2nipy(ck, impl):
     nib = impl.nib
     N = ck.n(250, 2500)
     terms, meta = [], []
+    chain = {"compared": 0, "refused": 0, "outside": 0}
     for _ in range(N):
         ndim = int(rng.choice([3, 4, 5, 6, 7], p=[.15, .3, .3, .15, .1]))
         shape = [int(rng.choice([1, 2, 3])) for _ in range(ndim)]
@@ -735,7 +797,8 @@ def section_nifti2nipy(ck, impl):
         hdr.set_sform(aff, sf)
         hdr.set_qform(aff, qf)
         tu = str(rng.choice(["unknown", "sec", "msec", "usec", "hz", "ppm", "rads"]))
-        hdr.set_xyzt_units(xyz="mm", t=tu)
+        xu = str(rng.choice(["mm", "unknown", "micron", "meter"], p=[.5, .14, .18, .18]))
+        hdr.set_xyzt_units(xyz=xu, t=tu)
         di = [None, None, None]
         if rng.random() < 0.5:
             p = [int(v) for v in rng.permutation(3)]
@@ -747,7 +810,7 @@ def section_nifti2nipy(ck, impl):
         hdr["pixdim"][4:4 + ndim - 3] = zooms
         hdr["toffset"] = float(rng.choice([0.0, 0.0, 7.0, -2.5]))
         ni = nib.Nifti1Image(data, aff, hdr)
-        ck.count(("load", shape, sf, qf, tu, di, zooms, aff.tolist()), nontrivial=True, bucket="load:%dD" % ndim)
+        ck.count(("load", shape, sf, qf, tu, xu, di, zooms, aff.tolist()), nontrivial=True, bucket="load:%dD:xyz-%s" % (ndim, xu))
         code = None
         try:
             img = impl.nr.nifti2nipy(ni)
@@ -757,9 +820,10 @@ def section_nifti2nipy(ck, impl):
                 ck.fail("nifti2nipy/unexpected-exception", "%s: %s" % (type(e).__name__, e), {"shape": shape})
                 continue
         o = impl.observe_n(ni)
-        rep = {"nifti": {k: (str(v) if k != "data" else "arange") for k, v in o.items()}}
+        rep = {"nifti": {k: (str(v) if k != "data" else "arange") for k, v in o.items()}, "xyz_units": xu}
         if code is None:
             io = impl.observe_i(img)
+            chain_oracle(ck, impl, img, io, zooms, xu, tu, rep, chain)
             # msec/usec scaling is one float multiplication by an inexact constant: canonicalise to the exact product
             scale = {"msec": Fraction(1, 1000), "usec": Fraction(1, 1000000)}.get(o["tunits"])
             squeezed = (shape[3] == 1 and ndim > 4 and o["tunits"] == "unknown") if ndim > 3 else False
@@ -770,18 +834,53 @@ def section_nifti2nipy(ck, impl):
                 if abs(gotv - exact) <= abs(exact) * Fraction(3, 10 ** 7):
                     io["lin"][3][3] = exact
             # property oracle on the implementation: data untouched, xyz affine as given, zooms on the diagonal
-            if io["data"] != o["data"] or [r[:3] for r in io["lin"][:3]] != [r[:3] for r in o["aff"]] \
-                    or io["trn"][:3] != [r[3] for r in o["aff"]]:
+            # (documented: micron / meter space units are converted to mm, one float operation per entry)
+            tomm = {"micron": lambda v: frac(float(v) / 1000.), "meter": lambda v: frac(float(v) * 1000.)}.get(xu, lambda v: v)
+            if io["data"] != o["data"] or [r[:3] for r in io["lin"][:3]] != [[tomm(v) for v in r[:3]] for r in o["aff"]] \
+                    or io["trn"][:3] != [tomm(r[3]) for r in o["aff"]]:
                 ck.fail("nifti2nipy/data-or-xyz-changed", "nifti2nipy changed data order or the xyz affine", rep)
             exp = ciobs(io)
         else:
             exp = cerr(code)
         args = "(mk_nimg %s %s %s %s %s %s %s %s)" % (cqmat(o["aff"]), cstr(o["sform"]), cstr(o["qform"]), coptl(o["dim_info"]),
                                                      cstr(o["tunits"]), cql(o["pixdim"]), cq(o["toffset"]), cnatl(o["shape"]))
-        terms.append("load_agrees %s %s" % (args, exp))
-        meta.append(("load", None, rep, args, code, []))
+        if xu in ("mm", "unknown"):
+            terms.append("load_agrees %s %s" % (args, exp))
+            meta.append(("load", None, rep, args, code, []))
     compare_terms(ck, terms, meta, "nifti2nipy")
-    ck.section("nifti2nipy", cases=len(terms))
+    ck.section("nifti2nipy", cases=len(terms), load_save_load_chains=chain)
+
+
+def chain_oracle(ck, impl, img, io, zooms, xu, tu, rep, stats):
+    """multi-step sequence on one object: an image that came out of a NIfTI (it carries that file's header, with
+    whatever units / codes it had, in its metadata) is converted again and loaded again: the second load must
+    give the same names, shape, data and - to float32 header storage - the same affine as the first."""
+    if any(z == 0 for z in zooms[1:]):      # zero-zoom non-time axis: outside the quantifier (positive scaling)
+        stats["outside"] += 1
+        return
+    try:
+        back = impl.nr.nifti2nipy(impl.nr.nipy2nifti(img, strict=True))
+    except impl.nr.NiftiError:
+        stats["refused"] += 1
+        return
+    except Exception as e:  # noqa
+        ck.fail("chain/load-save-load/unexpected-exception", "%s: %s" % (type(e).__name__, e), rep)
+        return
+    stats["compared"] += 1
+    ib = impl.observe_i(back)
+    for fld in ("inn", "outn", "shp", "data"):
+        if ib[fld] != io[fld]:
+            ck.fail("chain/load-save-load/%s-changed/xyz-units=%s" % (fld, xu),
+                    "nifti2nipy(nipy2nifti(loaded image)) differs from the loaded image in %s: %s -> %s"
+                    % (fld, str(io[fld])[:200], str(ib[fld])[:200]), rep)
+            return
+    a0 = np.array([[float(v) for v in r] + [float(t)] for r, t in zip(io["lin"], io["trn"])])
+    a1 = np.array([[float(v) for v in r] + [float(t)] for r, t in zip(ib["lin"], ib["trn"])])
+    if not np.allclose(a0, a1, rtol=1e-6, atol=1e-9):
+        part = "xyz-affine" if not np.allclose(a0[:3], a1[:3], rtol=1e-6, atol=1e-9) else "non-spatial-affine"
+        ck.fail("chain/load-save-load/%s-changed/xyz-units=%s" % (part, xu),
+                "the image loaded from a NIfTI with space units %r / time units %r moves when it is converted and loaded "
+                "again:\n%s\n->\n%s" % (xu, tu, a0, a1), rep)
 
 
 def section_filenames(ck, impl):
@@ -824,7 +923,8 @@ def section_files(ck, impl):
         tries += 1
         n = int(rng.choice([3, 4, 5, 6]))
         g = canonical(rng, n, space=str(rng.choice(SPACES)), tlc=str(rng.choice(["none", "both_same", "in_only", "out_only"])))
-        c = permuted(g, [int(v) for v in rng.permutation(n)], [int(v) for v in rng.permutation(n)], True, True)
+        c = permuted(g, [int(v) for v in rng.permutation(n)], [int(v) for v in rng.permutation(n)], True, True,
+                     stale=stale_header(rng) if rng.random() < 0.5 else None)
         if expressible(g, c) != "yes":
             continue
         done += 1
